@@ -40,12 +40,15 @@ def remove_worktree(d):
     subprocess.run(["git", "-C", "/repo", "worktree", "prune"], stdout=subprocess.DEVNULL, stderr=subprocess.DEVNULL)
 
 
-def run_check(pid, repo, tier, seed=None, extra_env=None):
-    env = dict(os.environ, VERIF_REPO=repo, VERIF_EVIDENCE_DIR=os.path.join(repo, ".verif-evidence"))
+def run_check(pid, repo, tier, seed=None, extra_env=None, replay=None, wt=None):
+    env = dict(os.environ, VERIF_REPO=repo, VERIF_EVIDENCE_DIR=os.path.join(wt or repo, ".verif-evidence"),
+               VERIF_REPLAY_DIR=os.path.join(wt or repo, ".verif-replays"))
     env.update(extra_env or {})
     cmd = [os.path.join(core.VERIF_DIR, "check"), pid, "--tier", tier]
     if seed is not None:
         cmd += ["--seed", str(seed)]
+    if replay is not None:
+        cmd += ["--replay", replay]
     t0 = time.monotonic()
     p = subprocess.run(cmd, env=env, capture_output=True, text=True, cwd=core.VERIF_DIR)
     lines = [l for l in p.stdout.splitlines() if l.startswith("VIOLATION") or l.startswith("violation:") or l.startswith("HARNESS")]
@@ -75,7 +78,7 @@ def main(tier, seed, names):
             continue
         try:
             for pid in checks:
-                rc, lines, wall, tail = run_check(pid, wt, tier)
+                rc, lines, wall, tail = run_check(pid, wt, tier, wt=wt)
                 caught = rc == 1 and any(l.startswith("VIOLATION") for l in lines)
                 first = next((l for l in lines if l.startswith("violation:")), "")
                 print("  %-28s %s exit=%d %.0fs %s %s" % (name, pid, rc, wall, "CAUGHT" if caught else "MISSED", first[:160]), flush=True)
@@ -83,6 +86,18 @@ def main(tier, seed, names):
                 if not caught:
                     missed += 1
                     print(tail[-1200:])
+                elif os.environ.get("VERIF_SELFTEST_REPLAY", "1") == "1":
+                    # the replay file of the first violation, in a fresh process: must fail the same way on the
+                    # changed tree and must NOT fail on the unchanged one
+                    rp = next(l.split("replay=", 1)[1].strip() for l in lines if l.startswith("VIOLATION"))
+                    rc1, l1, w1, _t = run_check(pid, wt, tier, replay=rp, wt=wt)
+                    rc0, l0, w0, _t = run_check(pid, "/repo", tier, replay=rp, wt=wt)
+                    ok = rc1 == 1 and rc0 == 0
+                    print("  %-28s %s replay: changed tree exit=%d (%.0fs), unchanged tree exit=%d (%.0fs) %s"
+                          % (name, pid, rc1, w1, rc0, w0, "OK" if ok else "REPLAY-MISMATCH"), flush=True)
+                    rows.append((name, pid, "replay ok" if ok else "replay mismatch (changed %d, unchanged %d)" % (rc1, rc0), rp))
+                    if not ok:
+                        missed += 1
         finally:
             remove_worktree(wt)
     os.makedirs(os.path.join(core.VERIF_DIR, "selftest"), exist_ok=True)
